@@ -175,7 +175,7 @@ class SWorld:
                     new = sv.data[addto].data
                     m = np.isfinite(new) & np.isfinite(old) & np.isfinite(std)
                     if m.any() and not np.allclose(
-                            np.abs(new-old)[m], std[m], rtol=1e-9):
+                            np.abs(new-old)[m], std[m], rtol=1e-9, atol=0):
                         return "value", "noise amplitude differs from the " \
                                         "standard deviation"
             elif op == "select":
